@@ -166,6 +166,11 @@ def run_kinds(acc, i, n, tier):
                 f.write(content)
             os.utime(p, (MTIME, MTIME))
         k = 0
+        # history: another, default-configured application in this process went through serve() (which makes
+        # *its* error handler re-raise for the debugger); this must not change how other applications answer
+        from clastic import Application as _App
+        _other = _App([('/x', lambda: None)])
+        _other.serve(_jk_just_testing=True, use_meta=False, use_static=False)
         for variant in ('plain', 'gzip', 'cache', 'debug', 'gzip+cache'):
             app = build_scenario(tmpdir, variant)
             for path in PATHS:
@@ -249,7 +254,29 @@ def run_wrappers(acc, i, n, tier):
         W.__name__ = name
         W.unique = unique
         return W
-    CLS = {'U1': mkcls('U1', True), 'U2': mkcls('U2', True), 'V': mkcls('V', False)}
+
+    class FalsyCallable(object):
+        """A perfectly callable wsgi_wrapper object that happens to be falsy (e.g. an empty registry)."""
+
+        def __init__(self, tag):
+            self.tag = tag
+
+        def __len__(self):
+            return 0
+
+        def __call__(self, inner):
+            tag = self.tag
+
+            def wrapped(environ, start_response):
+                LOG.append(tag)
+                return inner(environ, start_response)
+            return wrapped
+
+    class U2(Middleware):
+        def __init__(self, tag):
+            self.tag = tag
+            self.wsgi_wrapper = FalsyCallable(tag)
+    CLS = {'U1': mkcls('U1', True), 'U2': U2, 'V': mkcls('V', False)}
     maxlen = 3 if tier == 'quick' else 4
     stacks = [()]
     for L in range(1, maxlen + 1):
